@@ -4,9 +4,9 @@
   (1) `AHP` (Model/Token.lean)      (2) `AHP.Attrs` (Model/Attrs.lean)
   (3) `AHP.Pk` (Model/Pickle.lean)  (4) `AHP.Fmt` (Model/Format.lean)
 
-  Models (1)–(3) use the ASCII `strip` of Model/Basic.lean; model (4) uses `pyStrip`, which also removes the
-  non-ASCII white space of `str.isspace()`.  The two agree exactly on strings without such characters
-  (`NoUniWs`); the counter-examples for the other strings are in Props/AttrStores.lean.
+  Models (1)–(3) use `strip` of Model/Basic.lean, model (4) its own `pyStrip`.  Both remove exactly the characters of
+  `str.isspace()` (`isWs`, ASCII and non-ASCII), so they are one function (`pyStrip_eq`).  (Until `isWs` was repaired
+  it was the ASCII part only, and the two differed on `class="\xa0a"`; the library agreed with model (4).)
 -/
 import AHP.Model.Tree
 import AHP.Model.Attrs
@@ -131,10 +131,12 @@ theorem classNamesOf_none : classNamesOf none = classNamesOf (some []) := rfl
 theorem classNamesOf_getD (v : Option Str) : classNamesOf (some (v.getD [])) = classNamesOf v := by
   cases v <;> rfl
 
-/-! ### `strip` and `pyStrip` -/
+/-! ### `strip` and `pyStrip` are one function -/
 
-/-- No character of the string is white space for `str.isspace()` without being ASCII white space. -/
-def NoUniWs (s : Str) : Prop := ∀ c ∈ s, Fmt.pyWs c = isWs c
+/-- the formatter model's white space is the shared predicate: all of `str.isspace()` -/
+theorem pyWs_eq (c : Char) : Fmt.pyWs c = isWs c := rfl
+
+theorem pyWs_eq_isWs : Fmt.pyWs = isWs := funext pyWs_eq
 
 theorem dropWhile_congr {p q : Char → Bool} : ∀ {s : Str}, (∀ c ∈ s, p c = q c) → s.dropWhile p = s.dropWhile q
   | [], _ => rfl
@@ -143,25 +145,19 @@ theorem dropWhile_congr {p q : Char → Bool} : ∀ {s : Str}, (∀ c ∈ s, p c
     have hr : r.dropWhile p = r.dropWhile q := dropWhile_congr (fun x hx => h x (List.mem_cons_of_mem _ hx))
     simp [List.dropWhile_cons, hc, hr]
 
-theorem pyLstrip_eq {s : Str} (h : NoUniWs s) : Fmt.pyLstrip s = lstrip s := dropWhile_congr h
+theorem pyLstrip_eq (s : Str) : Fmt.pyLstrip s = lstrip s := by
+  unfold Fmt.pyLstrip lstrip; rw [pyWs_eq_isWs]
 
-theorem pyRstrip_eq {s : Str} (h : NoUniWs s) : Fmt.pyRstrip s = rstrip s := by
-  unfold Fmt.pyRstrip Fmt.rdropWhile rstrip
-  rw [dropWhile_congr (fun c hc => h c (List.mem_reverse.mp hc))]
+theorem pyRstrip_eq (s : Str) : Fmt.pyRstrip s = rstrip s := by
+  unfold Fmt.pyRstrip Fmt.rdropWhile rstrip; rw [pyWs_eq_isWs]
 
-theorem NoUniWs.lstrip {s : Str} (h : NoUniWs s) : NoUniWs (lstrip s) :=
-  fun c hc => h c (Attrs.mem_lstrip hc)
-
-theorem pyStrip_eq {s : Str} (h : NoUniWs s) : Fmt.pyStrip s = strip s := by
+theorem pyStrip_eq (s : Str) : Fmt.pyStrip s = strip s := by
   unfold Fmt.pyStrip strip
-  rw [pyLstrip_eq h, pyRstrip_eq h.lstrip]
+  rw [pyLstrip_eq, pyRstrip_eq]
 
-theorem NoUniWs.of_subset {s t : Str} (h : NoUniWs s) (hs : ∀ c ∈ t, c ∈ s) : NoUniWs t :=
-  fun c hc => h c (hs c hc)
-
-theorem classNames_fmt {s : Str} (h : NoUniWs s) : Fmt.classNames s = classNamesOf (some s) := by
+theorem classNames_fmt (s : Str) : Fmt.classNames s = classNamesOf (some s) := by
   unfold Fmt.classNames classNamesOf splitWords stripWordsOnly
-  rw [pyStrip_eq h, collapse_fmt]
+  rw [pyStrip_eq, collapse_fmt]
 
 /-! ### boolean strings, quote escaping -/
 
